@@ -524,13 +524,17 @@ class HostConnection(object):
         else:
             with self._lock:
                 if self.is_shutdown:
-                    # the pool was shut down while the new connection was being opened
+                    # the pool was shut down while the new connection was being opened; the connection
+                    # being replaced is neither current nor in the trash, so nobody else will close it
                     self._connection = None
                     conn.close()
+                    connection.close()
                     return
             with connection.lock:
                 with self._lock:
                     if connection.orphaned_threshold_reached:
+                        # a shutdown() that ran since the check above has already emptied the trash:
+                        # close the replaced connection here instead of parking it
                         if connection.in_flight == len(connection.orphaned_request_ids):
                             connection.close()
                         else:
